@@ -12,7 +12,7 @@ REQUIRED_MONITORS = ["labels@SC_apply(function)", "labels@SC_apply(inside SSIcov
                      "labels@SC_apply(inside SSIcov_MS.run)", "labels@SC_apply(inside pLSCF_MS.run)", "purity@SC_apply", "result.Lab==labels of final tables"]
 ALL_STATES = ["stable", "fails fn only", "fails xi only", "fails MAC only", "fails several", "prev column empty", "NaN pole", "below ordmin", "first column",
               "above ordmax", "nearest neighbour is not the same row"]
-REQUIRED_STATES = ["mode shapes with an exact zero in the first channel", "a tolerance of exactly zero through the classes", "tolerance dictionary in another key order", "ordmin = ordmax", "tolerances 1e-6..1e-7 on small damping / frequency", "run with covariance criterion", "stable", "fails fn only", "fails xi only", "fails MAC only", "prev column empty", "NaN pole", "below ordmin", "first column",
+REQUIRED_STATES = ["tolerances given as Decimal / Fraction / numpy numbers", "mode shapes with an exact zero in the first channel", "a tolerance of exactly zero through the classes", "tolerance dictionary in another key order", "ordmin = ordmax", "tolerances 1e-6..1e-7 on small damping / frequency", "run with covariance criterion", "stable", "fails fn only", "fails xi only", "fails MAC only", "prev column empty", "NaN pole", "below ordmin", "first column",
                    "nearest neighbour is not the same row"]
 RULE = ("pole tables up to 40 orders x 12 rows with random / structured NaN patterns, per-column row shuffles, duplicates and close frequencies, "
         "complex shapes and perturbations straddling each tolerance; every cell's label compared with an independent model (nearest finite "
@@ -131,12 +131,14 @@ def judge(ctx, tag, args, L, skip_cols=()):
 
 def make_table(rng, structured):
     nr = int(rng.integers(2, 13))
+    if rng.random() < 0.08:
+        nr = 1  # one pole slot per order (a first-order fit): the only candidate is the pole's own row
     if rng.random() < 0.25:
         nr = int(rng.integers(17, 61))  # as many pole slots as a high-order SSI / several-channel pLSCF table
     no = int(rng.integers(2, 41))
     nch = int(rng.integers(2, 7))
     base = np.sort(rng.uniform(1, 50, nr))
-    if rng.random() < 0.4:  # duplicates / closely spaced
+    if nr > 1 and rng.random() < 0.4:  # duplicates / closely spaced
         k = int(rng.integers(0, nr - 1))
         base[k + 1] = base[k] * (1 + rng.choice([0.0, 1e-6, 1e-3]))
     efn, exi, ephi = float(rng.choice([0.001, 0.01, 0.05])), float(rng.choice([0.01, 0.05, 0.3])), float(rng.choice([0.001, 0.03, 0.2]))
@@ -184,7 +186,7 @@ def make_table(rng, structured):
     return Fn, Xi, Phi, efn, exi, ephi
 
 
-def run_tables(ctx, rng, structured):
+def run_tables(ctx, rng, structured, case):
     from pyoma2.functions import gen as G_
 
     Fn, Xi, Phi, efn, exi, ephi = make_table(rng, structured)
@@ -203,7 +205,20 @@ def run_tables(ctx, rng, structured):
         ctx.state("mode shapes with an exact zero in the first channel")
     args = (Fn, Xi, Phi, ordmin, ordmax, step, efn, exi, ephi)
     copies = (Fn.copy(), Xi.copy(), Phi.copy())
-    L = G_.SC_apply(*args)
+    if Fn.shape[0] == 1:
+        ctx.state("one pole slot per order")
+    targs = args
+    if case["k"] % 5 == 3:
+        # the tolerances are numbers: any number type holding the same value means the same (they come out of a user's dictionary untouched)
+        import decimal
+        import fractions
+
+        kind = ["decimal", "fraction", "numpy float64", "0-d array", "decimal"][(case["k"] // 5) % 5]
+        conv = {"decimal": lambda v: decimal.Decimal(repr(v)), "fraction": lambda v: fractions.Fraction(repr(v)), "numpy float64": np.float64,
+                "0-d array": lambda v: np.array(v)}[kind]
+        targs = args[:6] + tuple(conv(float(v)) for v in (efn, exi, ephi))
+        ctx.state("tolerances given as Decimal / Fraction / numpy numbers")
+    L = G_.SC_apply(*targs)
     judge(ctx, "labels@SC_apply(function)", args, L)
     ctx.ev("purity@SC_apply")
     L2 = G_.SC_apply(copies[0].copy(), copies[1].copy(), copies[2].copy(), ordmin, ordmax, step, efn, exi, ephi)
@@ -294,4 +309,4 @@ def run_case(ctx, case):
     if case["cls"] == "inside_runs":
         run_inside(ctx, rng)
     else:
-        run_tables(ctx, rng, case["cls"] == "tables_structured")
+        run_tables(ctx, rng, case["cls"] == "tables_structured", case)
